@@ -19,4 +19,6 @@ fn main() {
     }
 
     println!("cargo:rustc-cfg=pastel_normal_build");
+    // verification hooks are guarded by `--cfg pastel_verif` (see src/distinct.rs)
+    println!("cargo:rustc-check-cfg=cfg(pastel_verif)");
 }
